@@ -22,6 +22,7 @@ int main(int argc, char **argv){
     vf::Args A(argc, argv); int si = (int) A.geti("--sc", NSC); g_noyield = A.has("--noyield");
     double dl = A.getd("--deadline", 0); if (dl > 0) vf::g_deadline = vf::now() + dl;
     if (si < 0 || si >= NSC_ALL){ fprintf(stderr, "bad scenario\n"); return 2; }
+    if (A.has("--nw")){ si = NSC; SC[si].workers = (int) A.geti("--nw", 2); SC[si].budget = (int) A.geti("--budget", 1); g_depth0 = (int) A.geti("--depth", 1); } // any (workers, budget, pool = 2^depth + 1)
     if (A.has("--dump")){
         int bound = (int) A.geti("--bound", 99); long n = 0;
         // explore with traces: vx::explore runs without traces, so the DFS is re-implemented here with want_trace = true
